@@ -10,8 +10,8 @@ WRAP_FILES = ["kvstore/flushkv/flushkv.go", "kvstore/debug/debug.go"]
 
 
 def regen(ctx):
-    """Four regenerated modules (the first two pinned by `rfl` obligations in Hive/Props/C04.lean, C04_Wrap / C04_Map are the INPUT of the
-    theorems C04_wrapper_model_is_the_source_* / C04_mapdb_*model_is_the_source):
+    """Five regenerated modules (the first two pinned by `rfl` obligations in Hive/Props/C04.lean, C04_Wrap / C04_Map / C04_Sync are the INPUT
+    of the theorems C04_wrapper_model_is_the_source_* / C04_mapdb_*model_is_the_source / C04_synced_map_model_is_the_source):
     Hive/Gen/C04_Skel.lean  - type facts (struct fields of the stores and batches, underlying types of IterDirection / Command / BitMask);
     Hive/Gen/C04_Calls.lean - for every function of the anchored kvstore files the calls it makes, in source order, with the
                               arguments expressed by parameter positions (harness/c04/gen)."""
@@ -50,6 +50,17 @@ def regen(ctx):
     if rc != 0 or not os.path.exists(tmp):
         return fails + [{"kind": "mapdb-translator", "detail": checklib.tail(log, 20)}]
     checklib.write_gen(ctx, out, open(tmp).read())
+    # Hive/Gen/C04_Sync.lean: the method bodies of synced_map.go (harness/c04/sgen); the map primitives of the model
+    # (aget/aset/adel/adelPfx, the snapshot / sort / strip / stop pipeline) are proved to be their interpretation
+    out = os.path.join(checklib.LEAN, "Hive", "Gen", "C04_Sync.lean")
+    tmp = os.path.join(ctx.scratch, "C04_Sync.lean")
+    if os.path.exists(tmp):
+        os.remove(tmp)
+    rc, log = checklib.sh(["go", "run", "./c04/sgen", tmp, "Hive.Gen.C04Sync", os.path.join(ctx.repo, "kvstore/mapdb/synced_map.go")],
+                          cwd=checklib.HARNESS, timeout=600)
+    if rc != 0 or not os.path.exists(tmp):
+        return fails + [{"kind": "synced-map-translator", "detail": checklib.tail(log, 20)}]
+    checklib.write_gen(ctx, out, open(tmp).read())
     return fails
 
 
@@ -75,14 +86,17 @@ SPEC = {
                  "C04_wrapper_model_is_the_source_flushkv", "C04_wrapper_model_is_the_source_debug", "C04_wrapper_constructors_text",
                  "C04_trace_model_is_sem",
                  "C04_mapdb_model_is_the_source", "C04_mapdb_batch_model_is_the_source", "C04_mapdb_constructor_text",
+                 "C04_synced_map_model_is_the_source",
                  "C04_calls_mapdb", "C04_calls_flushkv", "C04_calls_debug", "C04_calls_kvstore_utils", "C04_skeleton_types"],
     "trusted_base": [
         "model Hive/Model/KV.lean of kvstore/mapdb (+ flushkv, debug wrappers): its view / batch functions (dbGet ... dbCommit, the batch "
         "bookkeeping) and the wrapper trace model are proved to be the interpretation of the method bodies translated from the working tree "
-        "on every run (Hive/Gen/C04_Map.lean, C04_Wrap.lean; theorems C04_mapdb_*model_is_the_source, C04_wrapper_model_is_the_source_*); "
-        "trusted there: the two go/ast translators (harness/c04/mgen, wgen: unknown statement forms become `.other`), the interpreters "
-        "Hive/Model/KVMapSrc.lean / KVWrapSrc.lean (what a closed check, a map primitive, a callback guard mean), the hand-written primitives "
-        "of syncedKVMap (aget/aset/adel/adelPfx, snapshot + sort); all of it validated by line-by-line differential execution (harness/c04) "
+        "on every run (Hive/Gen/C04_Map.lean, C04_Sync.lean, C04_Wrap.lean; theorems C04_mapdb_*model_is_the_source, "
+        "C04_synced_map_model_is_the_source, C04_wrapper_model_is_the_source_*); "
+        "trusted there: the three go/ast translators (harness/c04/mgen, sgen, wgen: unknown statement forms become `.other`), the interpreters "
+        "Hive/Model/KVMapSrc.lean / KVWrapSrc.lean / KVSyncSrc.lean (what a closed check, a Go map operation, a range loop, a callback guard "
+        "mean; syncedKVMap's methods are derived too - C04_synced_map_model_is_the_source - so the primitives left are the Go map, "
+        "strings.HasPrefix, the slice copies, utils.SortSlice); all of it validated by line-by-line differential execution (harness/c04) "
         "on every run - answers and, below a recording store, the forwarded calls / debug callbacks - and by the regenerated call lists and "
         "type facts (Hive/Gen/C04_Calls.lean, C04_Skel.lean; obligations C04_calls_*)",
         "the memory model Hive/Model/KVMem.lean (every slice a reference: keys, prefixes, realms, values) is driven line by line against the "
@@ -109,8 +123,8 @@ SPEC = {
         "caller's realm slice, WithExtendedRealm / Realm() copy, keyed calls read their buffers at call time, batch Set / Delete copy the key "
         "and keep the value slice, Commit reads the realm buffer and copies the values when it runs, the iterations make a new buffer per key; "
         "driven line by line (m ... requests)",
-        "the method bodies of mapdb.go, flushkv.go, debug.go as translated terms (Hive/Gen/C04_Map.lean, C04_Wrap.lean) with interpreters "
-        "(Hive/Model/KVMapSrc.lean, KVWrapSrc.lean)",
+        "the method bodies of mapdb.go, synced_map.go, flushkv.go, debug.go as translated terms (Hive/Gen/C04_Map.lean, C04_Sync.lean, "
+        "C04_Wrap.lean) with interpreters (Hive/Model/KVMapSrc.lean, KVSyncSrc.lean, KVWrapSrc.lean)",
         "nil vs empty slices: one byte string in the model (`~` and `-` of the line protocol)",
         "NOT modelled: concurrency (C05); kvstore.Copy / CopyBatched with a target that is closed DURING the copy (probed on every run, "
         "evidence coverage.extra observation_Copy*: CopyBatched with a batch size calls Cancel on a nil batch there - outside the statement)",
@@ -145,8 +159,9 @@ SPEC = {
                 "C04_commit_stores_copies); the calls every function of the anchored kvstore files makes (source order, arguments by parameter "
                 "position) and the declared types are regenerated on every run and pinned (C04_calls_mapdb/_flushkv/_debug/_kvstore_utils, "
                 "C04_skeleton_types). Failing histories are minimised by delta debugging before they are reported; every request runs under a watchdog. "
-                "Round 6: (1) derived models - harness/c04/mgen and wgen translate every method body of mapdb.go, flushkv.go, debug.go on every run "
-                "(Hive/Gen/C04_Map.lean, C04_Wrap.lean); interpreting the generated bodies gives exactly the model's dbGet/dbHas/dbSet/dbDelete/"
+                "Round 6: (1) derived models - harness/c04/mgen, sgen and wgen translate every method body of mapdb.go, synced_map.go, flushkv.go, "
+                "debug.go on every run (Hive/Gen/C04_Map.lean, C04_Sync.lean, C04_Wrap.lean); the interpreted bodies of syncedKVMap are aget / aset / "
+                "adel / adelPfx and the snapshot-sort-strip-stop pipeline of the iterations (C04_synced_map_model_is_the_source); interpreting the generated bodies gives exactly the model's dbGet/dbHas/dbSet/dbDelete/"
                 "dbDeletePrefix/dbClear/dbCheck/dbIterate/dbIterateKeys/dbCommit, view and batch creation and the batch bookkeeping "
                 "(C04_mapdb_model_is_the_source, C04_mapdb_batch_model_is_the_source), and one layer of the wrapper trace model over any stack, "
                 "for every method and every debug.New configuration (C04_wrapper_model_is_the_source_flushkv/_debug, C04_trace_model_is_sem); "
@@ -159,8 +174,8 @@ SPEC = {
                 "Go oracles caller-write-changed-stored-data, caller-buffer-changed, batch-commit-contract. (3) nil vs empty slices for keys, "
                 "prefixes, realms, values on every call incl. batches; C04_has_iff_get_iff_iterated (Has <=> Get succeeds <=> the iterations "
                 "report the key, zero-length keys and values included).",
-        "note": "Trusted: Lean kernel; the two go/ast translators and the interpreters of the translated method bodies (the view / batch / "
-                "wrapper functions of the model are proved equal to the interpreted source; syncedKVMap's map primitives stay hand-written), all "
+        "note": "Trusted: Lean kernel; the three go/ast translators and the interpreters of the translated method bodies (the map / view / batch / "
+                "wrapper functions of the model are proved equal to the interpreted source; primitive: Go map, HasPrefix, copies, SortSlice), all "
                 "validated differentially on every run; the specification file. The private-copy clause is proved over the memory models KVHeap "
                 "(values) and KVMem (keys, prefixes, realms, values; driven line by line by the memory stream). Concurrency is C05.",
         "technique": "Lean 4 refinement proof (model -> ordered-map spec, lifted by induction to all histories) + model functions derived from "
